@@ -67,6 +67,13 @@ CHECKS = {
    note="Valid bodies never contain CRLF--boundary in content (RFC 2046); lying per-field Content-Length is outside the domain. One listed finding (bare CR + --boundary inside content ends the field) excludes exactly the contents that contain that byte string (counted). Trusts the renderer in harness/src/props/c15.rs.",
    technique="property-based testing with ground truth by construction + chunking metamorphic relation + exhaustive single cuts / truncation offsets for short bodies, on a wake-driven executor with a virtual deadline",
    design_ref="DESIGN.md §5 C15"),
+ "C12": dict(
+   engine="streams",
+   category="exploration",
+   text="The buffering extractors are called through their public FromRequest entry points (web::Bytes and String with PayloadConfig, Json<String> with JsonConfig, Form<T> with FormConfig, web::Payload::to_bytes_limited, body::to_bytes_limited over a BodyStream, MultipartForm<{a: Bytes with a 4 KiB field limit, b: Text}> with MultipartFormConfig::memory_limit) with a scripted streaming dev::Payload that counts how far it was pulled, on a wake-driven executor with a virtual deadline. Cases: limit 0/1/7/1024/262144/random x decoded length limit-1/limit/limit+1/+-20/2x/64x x valid or invalid content x compressible or not x coding identity/gzip/deflate/br/zstd (bodies encoded with flate2/brotli/zstd directly) x Content-Length absent/true/lying low/lying high x chunking one/1-byte/fixed/boundary exactly at the limit/random cuts with Pending patterns. Oracle: Ok implies decoded length <= limit and the value equals the original; decoded length over the limit implies the extractor's overflow error (never Ok, never another error); within the limit only invalid content or a lying length may fail; the same outcome for the generated chunking and for a single chunk; the payload is not pulled more than 2 chunks beyond the one in which the cumulative decoded length (streaming decode with the codec library) first exceeds the limit. 3*10^4 (quick) to 6*10^5 (thorough) cases, each run twice.",
+   note="Overflow kind is recognised by error text (Overflow / BodyLimitExceeded) or status 413. A declared Content-Length above the limit may fail early. TempFile multipart fields and custom FieldReader implementations are not covered.",
+   technique="property-based testing with boundary-value generators around the limit, chunking metamorphic relation, pull-count invariant on a scripted payload stream; reference codecs for content codings",
+   design_ref="DESIGN.md §5 C12"),
  "C01": dict(
    engine="simnet",
    category="exploration",
